@@ -527,6 +527,179 @@ def gen_cases(rng, count):
     return cases
 
 
+# ---------------------------------------------------------------------------------------------
+# boundary-sizes sub-stream: the Lean models use unbounded Nat / exact rationals, so C++ narrowing (int counts and ranks,
+# std::vector<int> masks), SparseVector's 1000-slot allocation steps (UnitFilter), buffer offsets of composite mirrors
+# and group sizes of the muxer are only visible to the correspondence -- if the sizes cross the boundaries.  Sparse data,
+# the interesting content (non-zeros, duplicates, shared DOFs, reversed arrival order) sits at the HIGH end.
+# ---------------------------------------------------------------------------------------------
+
+BOUNDARY_QUICK = [127, 128, 129, 255, 256, 257, 1000, 1001]
+BOUNDARY_THOROUGH = [4095, 4096, 4097, 32767, 32768, 65535, 65536, 65537]
+# the list-based Lean model is quadratic in the vector length: lines with more than MODEL_TOKENS tokens (the sizes >= 32767)
+# are judged by the independent oracle only, everything below is also compared with the model
+MODEL_TOKENS = 40000
+
+
+def sparse_vec(rng, n, hot):
+    """zeros except `hot` non-zero entries at the highest indices (and one at index 0)"""
+    v = [Fraction(0)] * n
+    if n:
+        v[0] = Fraction(1)
+    for i in range(max(0, n - hot), n):
+        v[i] = Fraction(rng.randint(1, 9) * rng.choice([-1, 1]), rng.choice([1, 1, 2, 3]))
+    return v
+
+
+def star_decomp(rng, P, extra=1):
+    """global DOF 0 is shared by all P patches (frequency 1/P, patch 0 has P-1 neighbours), the last patches also share
+    DOF 1 pairwise with their predecessor; every patch has `extra` private DOFs"""
+    mem = [list(range(P))]
+    for r in range(max(1, P - 3), P):
+        mem.append([r - 1, r])
+    for r in range(P):
+        mem += [[r]] * extra
+    G = len(mem)
+    maps = [[g for g in range(G) if r in mem[g]] for r in range(P)]
+    for m in maps[-3:]:
+        m.reverse()
+    nbrs = [[] for _ in range(P)]
+    for r in range(P):
+        for q in range(r + 1, P):
+            shared = [g for g in maps[r] if q in mem[g]]
+            if shared:
+                nbrs[r].append((q, [maps[r].index(g) for g in shared]))
+                nbrs[q].append((r, [maps[q].index(g) for g in shared]))
+    return G, maps, nbrs
+
+
+def two_patch_decomp(rng, m, bs_unused=1):
+    """two patches sharing m DOFs (one message of m*bs entries each way); the shared DOFs are the LAST local DOFs of
+    patch 0 and are listed in reversed order in the mirrors"""
+    G = m + 4
+    shared = list(range(2, 2 + m))
+    maps = [[0, 1] + shared, shared[::-1] + [G - 2, G - 1]]
+    order = shared[::-1]
+    pos = positions(maps)
+    nbrs = [[(1, [pos[0][g] for g in order])], [(0, [pos[1][g] for g in order])]]
+    return G, maps, nbrs
+
+
+def gen_boundary_cases(rng, tier):
+    sizes = BOUNDARY_QUICK + (BOUNDARY_THOROUGH if tier == "thorough" else [])
+    cases = []
+    for n in sizes:
+        big = n > 5000
+        # (a) one VectorMirror: n indices into a vector of n+1 blocks, duplicates of the LAST block at the end of the mirror
+        for bs in ((1, 2, 3) if not big else (1, 2)):
+            size = n + 1
+            mir = list(range(0, n - 3)) + [size - 1, size - 1, 0][:3] if n >= 3 else list(range(n))
+            mir = (mir + [size - 1] * n)[:n]
+            boff = 1
+            buf = sparse_vec(rng, boff + bs * n, 6)
+            vec = sparse_vec(rng, size * bs, 6)
+            cases.append("mscatter %d %d %s %s %d %s %s" % (bs, size, fmt_list(mir), "-3/2", boff, fmt_rats(buf), fmt_rats(vec)))
+            cases.append("mgather %d %d %s %d %s %s" % (bs, size, fmt_list(mir), boff, fmt_rats(buf), fmt_rats(vec)))
+        # (b) one message of n (times bs) entries between two patches, scalar / blocked / composite kinds
+        G, maps, nbrs = two_patch_decomp(rng, n)
+        D = fmt_decomp(G, maps, nbrs)
+        for bs in ((1, 3) if not big else (2,)):
+            vs = [sparse_vec(rng, len(m) * bs, 5) for m in maps]
+            cases.append("sync0 %d %s 1 0 1 0 %s" % (bs, D, " ".join(fmt_rats(v) for v in vs)))
+        if not big:
+            X = sparse_vec(rng, G, 7)
+            xs = [[X[g] for g in m] for m in maps]
+            cases.append("dot 1 %s %s %s" % (D, " ".join(fmt_rats(v) for v in xs), " ".join(fmt_rats(v) for v in xs)))
+            cases.append("async 1 %s %s %s" % (D, " ".join(fmt_rats(v) for v in xs), " ".join(fmt_rats(v) for v in xs)))
+        if n <= 1001:
+            # composite mirrors: every slot has the long mirror, so the offsets of the 2nd, 3rd, ... (blocked) component are
+            # n * block size -- num_indices and buffer_size differ exactly for the blocked components
+            for kind in ("t3", "nest", "p3"):
+                S = kind_slots(kind)
+                cnb = [[(q, [mm] * S) for q, mm in nb] for nb in nbrs]
+                cd = fmt_cdecomp(2, S, [G] * S, [[maps[r] for r in range(2)] for _ in range(S)], cnb)
+                vs = [[sparse_vec(rng, len(maps[r]) * b, 4) for b, sl in KINDS[kind]] for r in range(2)]
+                cases.append("csync0 %s %s 1 0 1 0 %s" % (kind, cd, " ".join(fmt_rats(l) for v in vs for l in v)))
+            # (c) unit filter with n entries (SparseVector grows in steps of 1000 slots), added in descending index order
+            fm = [list(range(n + 3))]
+            f = [(i, Fraction(i % 7 - 3)) for i in range(n + 2, 2, -1)][:n]
+            v = sparse_vec(rng, n + 3, 5)
+            cases.append("gfilter %d %s %d %s %s" % (n % 2, fmt_decomp(n + 3, fm, [[]]), len(f),
+                                                    " ".join("%d %s" % (i, vlib.frac_str(a)) for i, a in f), fmt_rats(v)))
+        # (d) n patches around one DOF: frequency 1/n, n-1 neighbours of every patch, reversed arrival order
+        if n <= 257 and (tier == "thorough" or n in (127, 128, 129, 256)):
+            G, maps, nbrs = star_decomp(rng, n)
+            D = fmt_decomp(G, maps, nbrs)
+            ords = " ".join(fmt_list(list(range(len(nb) - 1, -1, -1))) for nb in nbrs)
+            vs = [[Fraction(0)] * len(m) for m in maps]
+            for r in range(n - 4, n):
+                vs[r] = [Fraction(r + 1 + i, 3) for i in range(len(maps[r]))]
+            cases.append("sync0 1 %s %s %s" % (D, ords, " ".join(fmt_rats(v) for v in vs)))
+            cases.append("freqs 2 %s" % D)
+            X = sparse_vec(rng, G, 4)
+            X[0] = Fraction(5, 2)
+            xs = [[X[g] for g in m] for m in maps]
+            cases.append("sync1 1 %s %s %s" % (D, ords, " ".join(fmt_rats(v) for v in xs)))
+            if tier == "thorough":
+                cases.append("norm 1 %s %s" % (D, " ".join(fmt_rats(v) for v in xs)))
+            # base splitter with n patches
+            rms = [list(range(len(m))) for m in maps]
+            head = "%s %d %s %s" % (D, G, " ".join(fmt_list(x) for x in rms), " ".join(fmt_list(m) for m in maps))
+            cases.append("spljoin %s %s" % (head, " ".join(fmt_rats(v) for v in xs)))
+            if tier == "thorough" or n == 128:
+                cases.append("splsplit %s %s" % (head, fmt_rats(X)))
+    # (e) muxer group sizes crossing powers of two; the LAST child is the big one and carries the non-zeros
+    for C in [3, 4, 5, 7, 8, 9, 15, 16, 17, 31, 32, 33] + ([63, 64, 65, 127, 128, 129] if tier == "thorough" else []):
+        for kind in ("t3", "nest"):
+            S = kind_slots(kind)
+            pn = [C + 2] * S
+            children = []
+            for ci in range(C):
+                ch = []
+                for sl in range(S):
+                    sub = [ci, C + 1] if ci < C - 1 else list(range(C + 1, -1, -1))
+                    pm = list(range(len(sub)))
+                    ch.append((len(sub), pm, sub))
+                children.append(ch)
+            head = "%d %d %s %s" % (C, S, " ".join(map(str, pn)),
+                                    " ".join("%d %s %s" % (nn, fmt_list(pm), fmt_list(cm)) for ch in children for nn, pm, cm in ch))
+            srcs = [[[Fraction(0)] * (ch[sl][0] * b) for b, sl in KINDS[kind]] for ch in children]
+            srcs[-1] = [sparse_vec(rng, children[-1][sl][0] * b, 5) for b, sl in KINDS[kind]]
+            srcs[-2] = [[Fraction(ci2 + 1) for ci2 in range(children[-2][sl][0] * b)] for b, sl in KINDS[kind]]
+            cases.append("cmuxjoin %s %s %s" % (kind, head, " ".join(fmt_rats(l) for v in srcs for l in v)))
+            src = [sparse_vec(rng, pn[sl] * b, 6) for b, sl in KINDS[kind]]
+            cases.append("cmuxsplit %s %s %s" % (kind, head, " ".join(fmt_rats(l) for l in src)))
+    return cases
+
+
+def boundary_describe(case):
+    """size histogram of the boundary stream (cheap: reads only the head of the line)"""
+    t = case.split(None, 6)
+    op = t[0]
+    n = case.count(" ") + 1
+    keys = ["op:" + op, "line-tokens:2^%d" % max(0, n.bit_length() - 1)]
+    try:
+        if op in ("mgather", "mscatter"):
+            keys.append("mirror-indices:" + t[3])
+        elif op in ("cmuxjoin", "cmuxsplit"):
+            keys.append("children:" + t[2])
+        elif op == "csync0":
+            keys.append("kind:" + t[1])
+            keys.append("shared-dofs-per-slot:%d" % (int(t[4]) - 4))
+        elif op in ("spljoin", "splsplit"):
+            keys.append("patches:" + t[2])
+        elif op == "gfilter":
+            keys.append("filter-entries:%d" % (int(t[2]) - 3))
+        else:
+            P = int(t[3])
+            keys.append("patches:%d" % P)
+            if P == 2:
+                keys.append("message-entries:%d" % ((int(t[2]) - 4) * int(t[1])))
+    except (ValueError, IndexError):
+        pass
+    return keys
+
+
 CORPUS = [
     # three patches sharing one DOF (all arrival orders), blocked, type-1, no-neighbour branches
     "sync0 1 5 3 3 0 1 2 3 1 0 3 2 4 0 2 1 2 0 1 2 1 0 2 2 1 1 0 2 1 0 2 0 1 1 1 1 1 2 0 1 2 0 1 2 0 1 3 1/3 2/1 -1/1 3 5/1 1/7 4/1 2 9/1 -5/2",
@@ -563,7 +736,7 @@ CORPUS = [
     "casync t3 3 3 3 4 6 2 2 0 2 0 3 2 2 4 3 2 1 0 1 2 3 0 3 5 3 0 1 2 1 1 1 1 2 2 2 1 0 0 0 1 2 0 1 0 0 2 0 2 0 2 0 0 2 3 0 1 2 0 0 2 0 2 0 2 0 0 1 3 2 1 0 0 0 4 0/1 0/1 -2/1 2/1 2 -1/1 0/1 6 -7/1 8/1 -5/2 -1/1 6/1 -26/3 6 0/1 0/1 33/5 -4/1 -2/1 2/1 1 -3/4 9 4/1 -7/1 7/1 -5/4 36/1 21/1 0/1 5/1 6/1 6 -2/1 2/1 33/5 -4/1 0/1 0/1 1 -18/7 3 34/1 -4/1 0/1 4 5/1 37/5 39/1 18/1 2 -15/4 7/4 6 -1/2 0/1 -7/1 -25/4 0/1 9/1 6 5/1 37/5 6/1 31/8 39/1 18/1 1 0/1 9 -19/5 0/1 31/5 36/7 0/1 -15/4 2/1 6/1 6/1 6 39/1 18/1 6/1 31/8 5/1 37/5 1 1/1 3 -19/4 4/1 9/1",
     "casync nest 3 4 5 2 1 6 2 3 4 1 0 1 0 5 5 1 3 0 4 2 0 3 0 1 0 3 3 2 0 2 2 1 1 1 1 0 2 3 4 2 2 0 0 1 0 2 4 2 1 1 0 0 1 0 2 2 3 2 0 1 1 0 1 0 2 0 2 2 0 0 1 0 1 0 2 1 0 0 1 0 1 0 0 0 0 1 0 2 1 0 4 0/1 -11/4 -9/1 7/1 4 19/4 0/1 -4/1 -7/1 1 6/1 3 10/1 5/1 -9/2 5 2/1 19/4 -7/1 -1/1 -4/1 4 -10/7 -3/2 0/1 -11/4 4 0/1 8/1 19/4 0/1 0 3 10/1 5/1 -9/2 3 -7/1 -21/1 -1/1 4 -8/1 9/1 15/1 8/1 4 -3/1 0/1 -5/1 6/1 1 4/1 3 10/1 5/1 -9/2 2 -7/1 -4/1 4 16/1 11/2 -30/1 31/5 4 8/1 0/1 -1/4 5/1 1 -1/1 3 -13/2 -5/1 -9/1 5 11/3 0/1 -9/7 6/1 -39/8 4 6/1 -17/1 16/1 11/2 4 -7/1 4/1 8/1 0/1 0 3 -13/2 -5/1 -9/1 3 -9/7 -4/1 6/1 4 17/2 4/1 0/1 3/1 4 2/1 5/1 -1/1 1/1 1 5/1 3 -13/2 -5/1 -9/1 2 -9/7 -39/8",
     "casync p3 3 1 2 1 0 0 1 1 0 0 0 1 -9/2 1 4/1 1 -8/1 0 0 0 1 -3/1 1 8/1 1 -5/7 1 -3/1 1 9/1 1 9/1 0 0 0 1 1/1 1 -24/1 1 -17/3",
-    # finding F1 (judged on every run): asynchronous ticket on a gate without neighbours
+    # regression lines of the repaired finding F1 (13bbcdd1f): asynchronous ticket on a gate without neighbours
     "ticket 0 3 1/1 2/1 3/1",
     "ticket 1 3 1/1 2/1 3/1",
     "ticket 2 3 1/1 2/1 3/1",
@@ -618,26 +791,56 @@ def is_abnormal(out):
 def decomp_wf(G, maps, nbrs):
     """do the mirrors describe exactly the DOFs shared according to the maps, in matching order? (precondition)"""
     P = len(maps)
+    msets = []
     for m in maps:
-        if len(set(m)) != len(m) or any(g >= G for g in m):
+        ms = set(m)
+        if len(ms) != len(m) or any(g >= G for g in m):
             return False
+        msets.append(ms)
+    owners = {}
+    for r, m in enumerate(maps):
+        for g in m:
+            owners.setdefault(g, []).append(r)
+    shared = [dict() for _ in range(P)]          # shared[r][s] = set of global DOFs common to r and s
+    for g, rs in owners.items():
+        if len(rs) > 1:
+            for r in rs:
+                for q in rs:
+                    if q != r:
+                        shared[r].setdefault(q, set()).add(g)
+    nbd = [dict() for _ in range(P)]
     for r in range(P):
-        ranks = [s for s, _ in nbrs[r]]
-        if len(set(ranks)) != len(ranks) or any(s == r or s >= P for s in ranks):
+        for q, mir in nbrs[r]:
+            if q == r or q >= P or q in nbd[r]:
+                return False
+            nbd[r][q] = mir
+    for r in range(P):
+        for q, mir in nbrs[r]:
+            back = nbd[q].get(r)
+            if back is None or any(i >= len(maps[r]) for i in mir) or any(j >= len(maps[q]) for j in back):
+                return False
+            gl = [maps[r][i] for i in mir]
+            if gl != [maps[q][j] for j in back] or len(set(mir)) != len(mir):
+                return False
+            if set(gl) != shared[r].get(q, set()):
+                return False
+        if any(q not in nbd[r] for q in shared[r]):
             return False
-        for s, mir in nbrs[r]:
-            back = [m2 for r2, m2 in nbrs[s] if r2 == r]
-            if len(back) != 1 or any(i >= len(maps[r]) for i in mir) or any(j >= len(maps[s]) for j in back[0]):
-                return False
-            if [maps[r][i] for i in mir] != [maps[s][j] for j in back[0]] or len(set(mir)) != len(mir):
-                return False
-        for s in range(P):
-            if s != r:
-                shared = set(maps[r]) & set(maps[s])
-                got = [set(maps[r][i] for i in mir) for s2, mir in nbrs[r] if s2 == s]
-                if (got[0] if got else set()) != shared:
-                    return False
     return True
+
+
+def positions(maps):
+    """per patch: global DOF -> local index"""
+    return [{g: i for i, g in enumerate(m)} for m in maps]
+
+
+def compute_sharers(maps, G):
+    sh = [[] for _ in range(G)]
+    for r, m in enumerate(maps):
+        for g in m:
+            if g < G:
+                sh[g].append(r)
+    return sh
 
 
 def read_vecs_out(out, tag, sizes):
@@ -708,11 +911,12 @@ def composite_oracle(op, c, out):
             c.lst()
         vs = [[c.rats() for _ in range(L)] for _ in range(P)]
         res = read_vecs_out(out, "V", sizes)
+        cpos = [[{g: i for i, g in enumerate(maps[q][sl2])} for sl2 in range(S)] for q in range(P)]
         for r in range(P):
             for l, (bs, sl) in enumerate(leaves):
                 for i, g in enumerate(maps[r][sl]):
                     for k in range(bs):
-                        contrib = [vs[q][l][maps[q][sl].index(g) * bs + k] for q in sharers[sl][g]]
+                        contrib = [vs[q][l][cpos[q][sl][g] * bs + k] for q in sharers[sl][g]]
                         exp = sum(contrib) if op == "csync0" else sum(contrib) / len(contrib)
                         if res[r * L + l][i * bs + k] != exp:
                             return "%s: patch %d component %d dof %d comp %d = %s, expected %s over sharers %s" % (
@@ -770,8 +974,9 @@ def global_oracle(op, c, out):
         if op == "spljoin":
             vs = [c.rats() for _ in range(P)]
             res = read_vecs_out(out, "B", [G])[0]
+            spos = positions(maps)
             for g in range(G):
-                cc = [vs[r][maps[r].index(g)] for r in range(P) if g in maps[r]]
+                cc = [vs[r][spos[r][g]] for r in range(P) if g in spos[r]]
                 exp = sum(cc) / len(cc) if cc else Fraction(0)     # the common value of a type-1 vector, exactly once
                 if res[g] != exp:
                     return "splitter join: base dof %d = %s, expected %s from %d patches" % (g, res[g], exp, len(cc))
@@ -801,7 +1006,8 @@ def global_oracle(op, c, out):
         return None
     if is_abnormal(out):
         return "%s on a consistent decomposition ended with %s" % (op, out)
-    sharers = [[r for r in range(P) if g in maps[r]] for g in range(G)]
+    sharers = compute_sharers(maps, G)
+    vpos = positions(maps)
     sizes = [len(m) * bs for m in maps]
 
     def glob(vs, b=bs):
@@ -870,7 +1076,7 @@ def global_oracle(op, c, out):
         for r in range(P):
             for i, g in enumerate(maps[r]):
                 for kk in range(bs):
-                    cc = [loc[q][maps[q].index(g) * bs + kk] for q in sharers[g]]
+                    cc = [loc[q][vpos[q][g] * bs + kk] for q in sharers[g]]
                     if res[r][i * bs + kk] != sum(cc) / len(cc):
                         return "aliased Global::Vector ops + sync_1: patch %d dof %d = %s, expected %s" % (
                             r, i, res[r][i * bs + kk], sum(cc) / len(cc))
@@ -893,7 +1099,7 @@ def global_oracle(op, c, out):
                     if mode == 0:
                         exp = loc[r][i * bs + k]
                     else:
-                        cc = [loc[s][maps[s].index(g) * bs + k] for s in sharers[g]]
+                        cc = [loc[s][vpos[s][g] * bs + k] for s in sharers[g]]
                         exp = sum(cc) / len(cc)
                     if res[r][i * bs + k] != exp:
                         return "Global::Vector copy/axpy/scale%s: patch %d dof %d = %s, expected %s" % (
@@ -1057,7 +1263,7 @@ def oracle(case, out):
             return None          # precondition of the property not met (malformed-gate stream: model equality only)
         if is_abnormal(out):
             return "%s on a consistent decomposition ended with %s" % (op, out)
-        sharers = [[r for r in range(P) if g in maps[r]] for g in range(G)]
+        sharers = compute_sharers(maps, G)
         sizes = [len(m) * bs for m in maps]
         if op == "freqs":
             fs = read_vecs_out(out, "F", sizes)
@@ -1073,10 +1279,11 @@ def oracle(case, out):
                 c.lst()
             vs = [c.rats() for _ in range(P)]
             res = read_vecs_out(out, "V", sizes)
+            pos = positions(maps)
             for r in range(P):
                 for i, g in enumerate(maps[r]):
                     for k in range(bs):
-                        contrib = [vs[s][maps[s].index(g) * bs + k] for s in sharers[g]]   # each sharer exactly once
+                        contrib = [vs[s][pos[s][g] * bs + k] for s in sharers[g]]   # each sharer exactly once
                         exp = sum(contrib) if op == "sync0" else sum(contrib) / len(contrib)
                         if res[r][i * bs + k] != exp:
                             return "%s: patch %d dof %d comp %d = %s, expected %s over sharers %s" % (
@@ -1203,14 +1410,7 @@ def canon(out):
 
 def signature(case, out, why):
     t = case.split()
-    if t[0] == "ticket" and out.startswith("ABORT"):
-        return "c13-edge:F1-async-ticket-without-neighbours"
-    return "%s:%s" % (t[0], (why or "")[:40])
-
-
-def model_filter(case):
-    # F1: the model states the specified behaviour, the code aborts (known finding, judged by the oracle only)
-    return not case.startswith("ticket ")
+    return "c13-edge:%s:%s" % (t[0], (why or "")[:40])
 
 
 # ---------------------------------------------------------------------------------------------
@@ -1276,8 +1476,65 @@ def mpi_ref_case(case, out=None):
     return "mpi %s %s %s %s 1 0 auto %s_0" % (t[1], t[2], top, t[4], top)
 
 
+def syn_cases(tier):
+    """synthetic gates: single messages above 2^15 / 2^16 entries (scalar m, blocked 2m, tuple 4m), neighbour counts
+    crossing powers of two; thorough: >= 128 neighbours and a 65537-entry scalar message"""
+    cs = ["mpisyn chain 3 66000 32769", "mpisyn chain 2 40000 16385", "mpisyn star 9 3 1", "mpisyn star 17 3 1", "mpisyn chain 1 10 3"]
+    if tier == "thorough":
+        cs += ["mpisyn chain 2 140000 65537", "mpisyn chain 4 70000 32768", "mpisyn star 33 2 1", "mpisyn star 130 2 1"]
+    return cs
+
+
+def syn_oracle(case, out):
+    t = case.split()
+    kind, N, n, m = t[1], int(t[2]), int(t[3]), int(t[4])
+    try:
+        o = parse_mpi_out(out)
+    except ValueError:
+        return "synthetic distributed run did not complete: " + out[:300]
+    chain = kind == "chain"
+    val = {}
+    for r in range(N):
+        for i in range(n):
+            g = r * (n - m) + i if chain else (0 if i == 0 else 1 + r * (n - 1) + (i - 1))
+            val[g] = val.get(g, 0) + (r + 1) * (g % 5 + 1)          # every sharing rank exactly once
+    nd = len(val)
+    sv = sum(val.values())
+    exp = {"syn_dot": sum(v * 2 * (g % 3 + 1) for g, v in val.items()), "syn_max": max(val.values()),
+           "syn_blk_dot": sum(v * (2 * (g % 3 + 1) - 8) for g, v in val.items()), "syn_tup_dot": 14 * sv}
+    exp["syn_async_dot"] = exp["syn_dot"]
+    glast = (N - 1) * (n - m) + n - 1 if chain else 1 + (N - 1) * (n - 1) + (n - 2)
+    exp["syn_last"] = val[glast] if n > 1 else val[0]
+    if int(o["nranks"]) != N:
+        return "ran on %s ranks" % o["nranks"]
+    for k, e in (("syn_ndofs", nd), ("syn_blk_ndofs", nd), ("syn_tup_ndofs", 3 * nd)):
+        if int(o[k]) != e:
+            return "%s = %s, the undecomposed numbering has %d" % (k, o[k], e)
+    tol = 0.0 if (chain or N == 1) else 1e-12        # frequencies 1/2 are exact, 1/N in general not
+    for k, e in exp.items():
+        got = float.fromhex(o[k])
+        if not abs(got - e) <= tol * abs(e):
+            return "%s = %r on %d ranks (message of %d entries, %s neighbours), expected %r" % (k, got, N, m, o["syn_maxnb"], float(e))
+    if not float.fromhex(o["syn_s1_diff"]) <= (0.0 if chain else 1e-11):
+        return "sync_1 of a consistent vector changed it by %r" % float.fromhex(o["syn_s1_diff"])
+    return None
+
+
 def run_one_mpi(binary, case, timeout):
     t = case.split()
+    if t[0] == "mpisyn":
+        cmd = ["mpirun", "--allow-run-as-root", "--oversubscribe", "-n", t[2], binary, "--synthetic", t[1], t[3], t[4]]
+        env = dict(os.environ)
+        env["OMPI_MCA_rmaps_base_oversubscribe"] = "1"
+        env["OMPI_MCA_mpi_yield_when_idle"] = "1"
+        try:
+            r = subprocess.run(cmd, stdout=subprocess.PIPE, stderr=subprocess.PIPE, env=env, timeout=timeout)
+        except subprocess.TimeoutExpired:
+            return "TIMEOUT"
+        lines = [l for l in r.stdout.decode(errors="replace").split("\n") if l.startswith("C13MPI ")]
+        if r.returncode != 0 or len(lines) != 1:
+            return "FAIL:rc=%s %s" % (r.returncode, " ".join(r.stderr.decode(errors="replace")[-300:].split()))
+        return " ".join(lines[0].split())
     space, mesh, top, solve, n, h3, parti, lv = t[1], t[2], int(t[3]), int(t[4]), int(t[5]), int(t[6]), t[7], t[8]
     cmd = ["mpirun", "--allow-run-as-root", "--oversubscribe", "-n", str(n), binary, "--mesh", os.path.join(vlib.REPO, mesh),
            "--level"] + lv.split("_") + ["--space", space]
@@ -1311,7 +1568,7 @@ def run_mpi(binary, cases, timeout=150, max_ranks=None):
     state = {"ranks": 0}
 
     def job(case):
-        n = int(case.split()[5])
+        n = int(case.split()[2 if case.startswith("mpisyn") else 5])
         with cond:
             while state["ranks"] > 0 and state["ranks"] + n > max_ranks:
                 cond.wait()
@@ -1345,6 +1602,8 @@ TOL = {"t_async_sum": 1e-12, "t_async_sum_sqrt": 1e-12, "t_async_gnorm2": 1e-12,
 
 def make_mpi_oracle(results):
     def mpi_oracle(case, out):
+        if case.startswith("mpisyn "):
+            return syn_oracle(case, out)
         ref_out = results.get(mpi_ref_case(case, out))
         if ref_out is None:
             return "no single-process reference run for " + case
@@ -1435,7 +1694,7 @@ def build_mpi():
         # vlib puts harness/config first on the include path; pre-including the MPI variant of feat_config.hpp
         # (same include guard) makes every unit see FEAT_HAVE_MPI
         extra_flags=["-include", os.path.join(HDIR, "config_mpi", "feat_config.hpp")],
-        extra_srcs=[os.path.join(HDIR, f) for f in ("mpi_inst_q1_2d.cpp", "mpi_inst_q2_2d.cpp", "mpi_inst_q1_3d.cpp")])
+        extra_srcs=[os.path.join(HDIR, f) for f in ("mpi_inst_q1_2d.cpp", "mpi_inst_q2_2d.cpp", "mpi_inst_q1_3d.cpp", "mpi_synthetic.cpp")])
 
 
 # ---------------------------------------------------------------------------------------------
@@ -1460,12 +1719,24 @@ def main(argv):
     streams = []
     extra = {}
     only = os.environ.get("C13_ONLY", "")     # debugging aid: "inproc" or "mpi"
-    if (replay_case is None or not replay_case.startswith("mpi ")) and only in ("", "inproc"):
+    if (replay_case is None or not replay_case.startswith("mpi")) and only in ("", "inproc"):
         cases = [replay_case] if replay_case else CORPUS + gen_cases(rng, 12000 if args.tier == "quick" else 80000)
         streams.append(vlib.Stream("inproc", cases, [binary], vlib.driver_cmd(PROP), oracle=oracle, nontrivial=nontrivial,
-                                   describe=describe, signature=signature, canon=canon, model_filter=model_filter))
-    if (replay_case is None or replay_case.startswith("mpi ")) and only in ("", "mpi"):
-        mcases = [replay_case] if replay_case else mpi_cases(args.tier, args.seed, hook)
+                                   describe=describe, signature=signature, canon=canon))
+    if replay_case is None and only in ("", "inproc", "boundary"):
+        bcases = gen_boundary_cases(random.Random(args.seed * 7 + 1), args.tier)
+        small = [c for c in bcases if c.count(" ") < MODEL_TOKENS]
+        large = [c for c in bcases if c.count(" ") >= MODEL_TOKENS]
+        streams.append(vlib.Stream("boundary-sizes", small, [binary], vlib.driver_cmd(PROP), oracle=oracle, nontrivial=None,
+                                   describe=boundary_describe, signature=signature, canon=canon))
+        if large:   # oracle only: the list-based model is quadratic in the vector length
+            streams.append(vlib.Stream("boundary-sizes-large", large, [binary], None, oracle=oracle, nontrivial=None,
+                                       describe=boundary_describe, signature=signature, canon=canon))
+    if (replay_case is None or replay_case.startswith("mpi")) and only in ("", "mpi"):
+        if replay_case and replay_case.startswith("mpisyn "):
+            mcases = []
+        else:
+            mcases = [replay_case] if replay_case else mpi_cases(args.tier, args.seed, hook)
         allc = list(dict.fromkeys([mpi_ref_case(c) for c in mcases] + mcases))
         t1 = time.time()
         tmo = 120 if args.tier == "quick" else 300
@@ -1474,6 +1745,10 @@ def main(argv):
         if more:    # the control layer chose another finest level for some runs: add their one-process references
             results.update(run_mpi(mpibin, more, timeout=tmo))
             allc = more + allc
+        if replay_case is None or replay_case.startswith("mpisyn "):
+            syn = syn_cases(args.tier) if replay_case is None else [replay_case]
+            results.update(run_mpi(mpibin, syn, timeout=tmo))
+            allc = allc + syn
         extra["mpi_wall_s"] = round(time.time() - t1, 1)
         os.makedirs(os.path.join(vlib.BUILD, "tmp"), exist_ok=True)
         jpath = os.path.join(vlib.BUILD, "tmp", "c13-mpi-%d.json" % os.getpid())
@@ -1493,7 +1768,7 @@ def main(argv):
         extra.update({"h3_hook_compiled_in": hook, "h3_distinct_processing_orders": orders,
                       "mpi_runs": len(results), "mpi_tuple3_muxers_exercised": muxers, "mpi_transfer_level_pairs": transfers, "mpi_runs_with_dof_shared_by_3_ranks": share3,
                       "mpi_bit_exact_comparisons": exact_keys,
-                      "mpi_process_counts": sorted({int(c.split()[5]) for c in results})})
+                      "mpi_process_counts": sorted({int(c.split()[2 if c.startswith("mpisyn") else 5]) for c in results})})
 
         def mpi_nontrivial(case, results=results):
             try:
@@ -1504,6 +1779,8 @@ def main(argv):
 
         def mpi_describe(case):
             t = case.split()
+            if t[0] == "mpisyn":
+                return ["synthetic:" + t[1], "N:" + t[2], "message-entries:" + t[4]]
             return ["space:" + t[1], "N:" + t[5], "layers:%d" % (len(t[8].split("_")) - 1), "parti:" + t[7],
                     "h3:" + ("on" if t[6] != "0" else "off")]
 
